@@ -267,12 +267,20 @@ pub fn alone(tr: &mut Tr, rng: &mut SmallRng, codes: &[CodeSpec], dense: u64, wo
                 let backend = WRITER_BACKENDS[rng.random_range(0..WRITER_BACKENDS.len())];
                 let cap = vals.len() * write_opts(c).len() * (440 / w + 2) + 8;
                 let mut tw = TW::new(tr, &wcfg(le, w, backend), cap);
-                for &v in &vals {
+                for (vi, &v) in vals.iter().enumerate() {
                     for opt in write_opts(c) {
                         if tw.dead {
                             break;
                         }
                         tw.write_code(tr, c, opt, v);
+                        if !tw.dead {
+                            tw.flush(tr);
+                        }
+                        st.tests += 1;
+                    }
+                    // the same value through the dynamic dispatch of the enumeration (one value in three)
+                    if vi % 3 == 0 && c.f != Fam::MinBin && !tw.dead {
+                        tw.write_code(tr, c, OPT_ENUM, v);
                         if !tw.dead {
                             tw.flush(tr);
                         }
@@ -308,7 +316,7 @@ pub fn concat(tr: &mut Tr, rng: &mut SmallRng, codes: &[CodeSpec], dense: u64, n
             let mut total = 0u64;
             for (i, &v) in vals.iter().enumerate() {
                 let opts = write_opts(c);
-                let opt = opts[rng.random_range(0..opts.len())];
+                let opt = if i % 4 == 3 && c.f != Fam::MinBin { OPT_ENUM } else { opts[rng.random_range(0..opts.len())] };
                 starts.push((total, Some(v)));
                 if let Out::Ok(k) = tw.write_code(tr, c, opt, v) {
                     total += k as u64;
@@ -354,7 +362,10 @@ pub fn concat(tr: &mut Tr, rng: &mut SmallRng, codes: &[CodeSpec], dense: u64, n
                     }
                     match item {
                         Some(_) => {
-                            let opts = read_opts(c, rcfg);
+                            let mut opts = read_opts(c, rcfg);
+                            if c.f != Fam::MinBin {
+                                opts.push(OPT_ENUM);
+                            }
                             if cloneable {
                                 for &o in &opts[1..] {
                                     let mut cl = rd.try_clone(tr).unwrap();
